@@ -289,6 +289,39 @@ def r05_5(run):
                f"`{norm(bad[0])[:50]}` indexes with the mask: a mask that NumPy broadcast against the output selects the wrong elements (or raises)")
 
 
+_CONCRETE = {"int_", "intc", "intp", "int8", "int16", "int32", "int64", "uint", "uint8", "uint16", "uint32", "uint64", "longlong", "float_", "float16",
+             "float32", "float64", "double", "single", "half", "longdouble", "int", "float"}
+_ABSTRACT = {"integer", "signedinteger", "unsignedinteger", "floating", "inexact", "number", "complexfloating", "generic", "bool_", "bool"}
+
+
+def r05_7(run):
+    """dtype-kind tests name an abstract scalar class.  `np.issubdtype(d, np.int_)` is true for one width only: int32/uint8 index arrays
+    would not be recognised as integer-array indices, so repeated positions get no last-write resolution in SetItem.backward_var"""
+    fx = facts(run)
+    n = 0
+    for fi in run.project.all_functions():
+        for c in own_nodes(fi.node):
+            if not isinstance(c, ast.Call) or len(c.args) != 2:
+                continue
+            d = dotted(c.func) or ""
+            if d.split(".")[-1] == "issubdtype":
+                cls = c.args[1]
+            elif d == "issubclass" and ("dtype" in norm(c.args[0])):
+                cls = c.args[1]
+            else:
+                continue
+            n += 1
+            leaf = (dotted(cls) or "").split(".")[-1]
+            bad = leaf in _CONCRETE
+            inidx = fi.module.name.endswith("_tensor_core_ops.indexing")
+            run.ob("R05.7", loc(fi, c), fi.short, f"dtype-kind test `{norm(c)[:60]}` names an abstract class", not bad,
+                   f"{leaf or norm(cls)}" if not bad else
+                   f"`{norm(cls)}` is one concrete width: arrays of every other integer/float width fail the test" +
+                   (" -- integer-array indices of dtype int32/uint8 are treated as basic indices and repeated positions back-propagate to every "
+                    "overwritten element" if inidx else ""))
+    run.count("dtype-kind tests", n)
+
+
 def check(run):
     run.rule("R05.1", "the tracked in-place kernel writes into a private copy of the base (def-use chain to graph.base.tensor.copy()), made after "
              "the graph duplication; operands are placeholders", floor=4)
@@ -303,3 +336,5 @@ def check(run):
     r05_4(run)
     r05_5(run)
     r05_6(run)
+    run.rule("R05.7", "dtype-kind tests (np.issubdtype / issubclass on a dtype) name abstract scalar classes, never one concrete width", floor=8)
+    r05_7(run)
